@@ -127,14 +127,38 @@ def rule_r2(rep, idx):
     rep.rule('R2b', 'for every instruction byte the step summary of the run loop with tracing on (trace functions as no-ops, '
              'justified by R2a) equals the summary with tracing off: registers, stores, I/O primitives, running, exit value, '
              'cycle count', floor=240)
+    # members that only the trace functions touch are text-only state by construction: nothing outside can observe them
+    closure = set()
+    for nm in TRACE_FUNCS:
+        f0 = idx.func(CLS + '::' + nm)
+        todo = [f0]
+        while todo:
+            g = todo.pop()
+            if g.id in closure or g.body is None:
+                continue
+            closure.add(g.id)
+            for c in cast.calls_in(g.body):
+                kind, name, did, obj = callee_of(c)
+                o = cast.strip_noncast(obj) if obj is not None else None
+                h = idx.func_by_id.get(did) if did else None
+                if h is not None and o is not None and o['kind'] == 'CXXThisExpr':
+                    todo.append(h if h.body is not None else getattr(h, 'defn', h))
+    seen_outside = set()
+    for m_ in idx.record(CLS).methods + [c_ for c_ in idx.record(CLS).ctors if c_.body is not None and c_.params]:
+        if m_.body is None or m_.id in closure or m_.name in ('setTracing',):
+            continue
+        for x in walk(m_.body):
+            if x['kind'] == 'MemberExpr' and cast.is_this_member(x):
+                seen_outside.add(x['name'])
     for nm in TRACE_FUNCS:
         f = idx.func(CLS + '::' + nm)
         rep.analysed(f.sig)
         eff = writes_of(idx, f)
-        bad = [e for e in eff if not (e[0] == 'write' and e[1] in TRACE_MAY_WRITE)]
+        bad = [e for e in eff if not (e[0] == 'write' and (e[1] in TRACE_MAY_WRITE or e[1] not in seen_outside))]
+        private = sorted({e[1] for e in eff if e[0] == 'write' and e[1] not in TRACE_MAY_WRITE and e[1] not in seen_outside})
         rep.add('R2a', '%s::%s:effects' % (CLS, nm), not bad, pos(f.node) + ' ' + f.qname,
                 ('; '.join('%s %s at %s' % (e[0], e[1], e[2]) for e in bad)) if bad else
-                'writes only %s' % sorted({e[1] for e in eff}))
+                'writes only %s%s' % (sorted({e[1] for e in eff}), (' (%s are touched by the trace functions alone)' % private) if private else ''))
     rep.rule('R2c', 'the trace functions cannot throw: every boost::format chain they evaluate is fed exactly as many operands as its '
              'format string has conversions (a mismatch raises too_few_args/too_many_args at run time and aborts the traced run)', floor=20)
     for nm in TRACE_FUNCS:
